@@ -60,6 +60,8 @@ pub struct Gen<'a> {
     in_loop: bool,
     labels: Vec<&'static str>,
     budget: usize,
+    /// names bound to finite iterators (an ordinary function of type ()->(bool, T) is not one)
+    iterators: Vec<String>,
 }
 
 fn is_counter(name: &str) -> bool {
@@ -75,7 +77,7 @@ fn scalar_types() -> [Ty; 4] {
 
 impl<'a> Gen<'a> {
     pub fn new(tape: &'a mut Tape, p: Profile) -> Self {
-        Self { tape, p, scopes: vec![vec![]], tick_types: vec![], next_tick: 1, fresh: 0, fn_ret: None, in_loop: false, labels: vec![], budget: 400 }
+        Self { tape, p, scopes: vec![vec![]], tick_types: vec![], next_tick: 1, fresh: 0, fn_ret: None, in_loop: false, labels: vec![], budget: 400, iterators: vec![] }
     }
 
     fn label(&mut self, l: &'static str) {
@@ -95,6 +97,8 @@ impl<'a> Gen<'a> {
     // ---------- scope ----------
 
     fn declare(&mut self, name: &str, ty: Ty) {
+        // whatever the name meant before, it is no longer known to be a finite iterator
+        self.iterators.retain(|n| n != name);
         self.scopes.last_mut().unwrap().push(Var { name: name.to_string(), ty });
     }
 
@@ -509,10 +513,9 @@ impl<'a> Gen<'a> {
     /// an iterator expression with element type `elem`
     fn iter_expr(&mut self, elem: &Ty, depth: usize) -> Expr {
         let it_ty = Ty::iter_of(elem.clone());
-        let mut e = if let Some(v) = self.var_of_type(&it_ty)
-            && self.tape.chance(1, 4)
-        {
-            v
+        let known: Vec<Var> = self.vars_of(|t| crate::ty::sub(t, &it_ty)).into_iter().filter(|v| self.iterators.contains(&v.name)).collect();
+        let mut e = if !known.is_empty() && self.tape.chance(1, 4) {
+            Expr::Var(known[self.tape.below(known.len())].name.clone())
         } else {
             self.label("array iterator");
             Expr::Iter(Box::new(self.arr_source(elem, depth)))
@@ -680,7 +683,11 @@ impl<'a> Gen<'a> {
                     return self.user_iterator(name, depth);
                 }
                 // a manual pull from a visible iterator: only the flag is specified once it is exhausted
-                let its = self.vars_of(|t| matches!(t, Ty::Fun(ps, r) if ps.is_empty() && matches!(&**r, Ty::Tup(ts) if ts.len() == 2 && ts[0] == Ty::Bool)));
+                let its: Vec<Var> = self
+                    .vars_of(|t| matches!(t, Ty::Fun(ps, r) if ps.is_empty() && matches!(&**r, Ty::Tup(ts) if ts.len() == 2 && ts[0] == Ty::Bool)))
+                    .into_iter()
+                    .filter(|v| self.iterators.contains(&v.name))
+                    .collect();
                 if !its.is_empty() && self.tape.chance(1, 3) {
                     let it = its[self.tape.below(its.len())].clone();
                     self.label("manual pull");
@@ -690,6 +697,7 @@ impl<'a> Gen<'a> {
                 let elem = if self.tape.bool() { Ty::Int } else { Ty::Str };
                 let it = self.iter_expr(&elem, depth.saturating_sub(1));
                 self.declare(&name, Ty::iter_of(elem));
+                self.iterators.push(name.clone());
                 Stmt::Let(name, Box::new(Stmt::Expr(it)))
             }
             5 => {
@@ -749,6 +757,7 @@ impl<'a> Gen<'a> {
             Stmt::Expr(closure),
         ]);
         self.declare(&name, it_ty);
+        self.iterators.push(name.clone());
         Stmt::Let(name, Box::new(block))
     }
 
